@@ -218,13 +218,14 @@ def check(prop, tier):
     #    debug-tracer callbacks of that run imply (StepTrace.tla rebuilds it, including attempts refused up front)
     #    and (C05) the provider's log of join-point firings must be exactly: one pre firing right after the announcement of every
     #    message call that runs code, one post firing right before its exit is announced, nothing else
-    if prop in ("C05", "C07", "C08"):
+    #    and (C13) the balance journal dumped after the run must be exactly what the transfers observed by the wrapped Transfer function imply
+    if prop in ("C05", "C07", "C08", "C13"):
         import steptrace
         steptrace.run(v, prop, tier)
     v.cov["exhaustive"] = True
     v.cov["rule"] = ("every complete behaviour of ArtelaEVM.tla within the stated constants (see notes.scn_runs) is compiled to byte code and "
                      "executed on the real EVM; distinct = distinct (tops, frames, failure position/kind, bound set); non-trivial = more than one "
-                     "frame or an injected join-point failure; plus random behaviours of a larger instance (tlc -simulate) and, for C07/C08, trace validation of generated programs (notes.trace_validation)")
+                     "frame or an injected join-point failure; plus random behaviours of a larger instance (tlc -simulate) and, for C05/C07/C08/C13, trace validation of generated programs (notes.trace_validation)")
     v.assumptions += ["TLC 1.8", "go-ethereum v1.12.0 core/state.StateDB as the world", "the scenario compiler (harness/scn) maps model instructions to byte code faithfully",
                       "Aspect failures are injected at provider level (GetTxBondAspects error); bound Aspects are real WASM run by aspect-runtime"]
     return v.finish()
